@@ -18,10 +18,10 @@ interleaving another request could take the key in that window and `Guard` would
 between a release and the return, so under the yield-point discipline nobody else runs in the window.
 
 Hypotheses, all explicit in the statements:
-* `NoPanic p` — the request's control path contains no `panic`.  The skeleton has 4 such paths (`SaveMeta` /
-  `DeleteMetadata` on an unknown target type): their deferred calls release the idempotency key and the request never
-  returns, so no `finish` is emitted and `Guard` still counts the key as reserved — the refinement is FALSE for them
-  (counterexample in DESIGN.md §0a); in the Go process such a panic ends the process, which `SkelSys` does not model.
+* (none about panics: a path that panics — the 4 paths of `SaveMeta` / `DeleteMetadata` on an unknown target type —
+  ends, after its deferred calls, with the error its caller answers once the panic has unwound, `fin false "panic"`,
+  as the harness and the HTTP recoverer do; before `Skel.paths` said so the refinement was false for these paths — the
+  key was released without any `finish` — and they had to be excluded.)
 * `JobOk isRevert j` — the request's kind agrees with its entry point (`SkelSys` takes the log's reference / revert
   target from `req.kind`, the skeleton decides the protocol from the entry point) and `isRevert` says which requests
   are reverts (the parameter of `Guard.revView`).  Not needed for the idempotency-key view.
@@ -32,34 +32,29 @@ open Engine Engine.Skel Engine.Skel.GuardRef Generated.Commander Skeleton
 
 -- ------------------------------------------------------------------------------------------------ admission
 
-/-- **every control path of the regenerated skeleton that does not panic is accepted by the guard automaton, for the
-three views** (one kernel evaluation, like `Skeleton.wf_generated`) -/
+/-- **every control path of the regenerated skeleton is accepted by the guard automaton, for the three views** (one
+kernel evaluation, like `Skeleton.wf_generated`) -/
 theorem guard_shape_generated :
-    entryPoints.all (fun e => (paths e.1 e.2).all (fun p => (tagged p).any isPanic || gaccAll e.1 (tagged p))) = true := by
+    entryPoints.all (fun e => (paths e.1 e.2).all (fun p => gaccAll e.1 (tagged p))) = true := by
   decide +kernel
-
-/-- the request's control path does not panic -/
-def NoPanic (p : Path) : Prop := p.any isPanic = false
 
 /-- the request's kind agrees with its entry point, and `isRevert` tells the reverts -/
 def JobOk (isRevert : Nat → Bool) (j : Sys.Job) : Prop :=
   (j.req.kind = .create ↔ j.ep = "CreateTransaction") ∧ (j.req.kind = .revert ↔ j.ep = "RevertTransaction") ∧
   decide (j.req.kind = .revert) = isRevert j.a
 
-/-- admission for the idempotency-key view: a path of the request's entry point that does not panic -/
-def AdmittedNP (j : Sys.Job) (p : Path) : Prop := SkeletonRef.Admitted j p ∧ NoPanic p
+/-- admission for the idempotency-key view: any path of the request's entry point -/
+def AdmittedNP (j : Sys.Job) (p : Path) : Prop := SkeletonRef.Admitted j p
 
 /-- admission for the reference and revert views -/
 def AdmittedG (isRevert : Nat → Bool) (j : Sys.Job) (p : Path) : Prop :=
-  SkeletonRef.Admitted j p ∧ NoPanic p ∧ JobOk isRevert j
+  SkeletonRef.Admitted j p ∧ JobOk isRevert j
 
-theorem admitted_guard_shape (v : VId) (j : Sys.Job) (p : Path) (h : SkeletonRef.Admitted j p) (hn : NoPanic p) :
+theorem admitted_guard_shape (v : VId) (j : Sys.Job) (p : Path) (h : SkeletonRef.Admitted j p) :
     gacc v j.ep (ginit v j.ep) p = true := by
   obtain ⟨e, he, hep, p0, hp0, rfl⟩ := h
   have h1 := List.all_eq_true.mp guard_shape_generated e he
   have h2 := List.all_eq_true.mp h1 p0 hp0
-  simp only [NoPanic] at hn
-  rw [hn, Bool.false_or] at h2
   have h3 := List.all_eq_true.mp h2 v (by cases v <;> simp [VId.all])
   rw [← hep]
   exact h3
@@ -81,7 +76,7 @@ theorem guard_ik_accepts_every_schedule (store : List LogE) (tr : List Ev) (y : 
       s.durable.map (fun e => (e.key, e.id)) = y.st.sh.store.map (fun l => (l.ik, l.id)) ∧
       s.pending = y.st.sh.queue.map (fun q => ⟨q.2.ik, q.2.id, q.1⟩) := by
   obtain ⟨s, hs, hi⟩ := runY_refines .ik (fun _ => false) AdmittedNP
-    (fun j p hp => ⟨admitted_guard_shape .ik j p hp.1 hp.2, trivial⟩) _ _ _ h _ (init_inv .ik _ store trivial)
+    (fun j p hp => ⟨admitted_guard_shape .ik j p hp, trivial⟩) _ _ _ h _ (init_inv .ik _ store trivial)
   exact ⟨s, hs, hi.dur, hi.pend⟩
 
 /-- … hence (C07's invariant) in every reachable state of the interpreted skeleton the machine's invariant holds and **a
@@ -106,7 +101,7 @@ theorem guard_ref_accepts_every_schedule (isRevert : Nat → Bool) (store : List
       s.durable.map (fun e => (e.key, e.id)) = y.st.sh.store.map (fun l => (l.ref, l.id)) ∧
       s.pending = y.st.sh.queue.map (fun q => ⟨q.2.ref, q.2.id, q.1⟩) := by
   obtain ⟨s, hs, hi⟩ := runY_refines .ref isRevert (AdmittedG isRevert)
-    (fun j p hp => ⟨admitted_guard_shape .ref j p hp.1 hp.2.1, jobOk_view isRevert .ref j hp.2.2⟩) _ _ _ h _
+    (fun j p hp => ⟨admitted_guard_shape .ref j p hp.1, jobOk_view isRevert .ref j hp.2⟩) _ _ _ h _
     (init_inv .ref _ store trivial)
   exact ⟨s, hs, hi.dur, hi.pend⟩
 
@@ -139,7 +134,7 @@ theorem guard_rev_accepts_every_schedule (isRevert : Nat → Bool) (store : List
     simp only [Sys.restart, List.map_nil, List.not_mem_nil, or_false] at hl
     exact hstore l hl t ht
   obtain ⟨s, hs, hi⟩ := runY_refines .rev isRevert (AdmittedG isRevert)
-    (fun j p hp => ⟨admitted_guard_shape .rev j p hp.1 hp.2.1, jobOk_view isRevert .rev j hp.2.2⟩) _ _ _ h _
+    (fun j p hp => ⟨admitted_guard_shape .rev j p hp.1, jobOk_view isRevert .rev j hp.2⟩) _ _ _ h _
     (init_inv .rev _ store hst)
   exact ⟨s, hs, hi.dur, hi.pend⟩
 
@@ -263,12 +258,10 @@ def sawRetry (o : Option (List Ev × Sys.Shared × Sys.Regs)) : Bool :=
 
 theorem admitted1 : AdmittedG (fun _ => false) job1 path1 := by
   refine ⟨⟨("CreateTransaction", createTransaction), by simp [entryPoints], rfl,
-    ((paths "CreateTransaction" createTransaction)[1]?).getD [], ?_, rfl⟩, ?_, ?_⟩
+    ((paths "CreateTransaction" createTransaction)[1]?).getD [], ?_, rfl⟩, ?_⟩
   · have h : (paths "CreateTransaction" createTransaction)[1]? =
         some (((paths "CreateTransaction" createTransaction)[1]?).getD []) := by decide +kernel
     exact List.mem_of_getElem? h
-  · show path1.any isPanic = false
-    decide +kernel
   · refine ⟨⟨fun _ => rfl, fun _ => rfl⟩, ⟨(fun h => by cases h), fun h => ?_⟩, rfl⟩
     have : ("CreateTransaction" : String) ≠ "RevertTransaction" := by decide
     exact absurd h this
